@@ -9,14 +9,14 @@ W=/tmp/vw-$P-$L
 git -C /repo worktree remove --force $W 2>/dev/null; rm -rf $W
 git -C /repo worktree add -q --detach $W HEAD || exit 2
 CMD=$(jq -r .demo_cmd "$SRC/$L.meta.json")
-CMD=$(echo "$CMD" | sed -E "s#<repo>#$W#g; s#<worktree>#$W#g; s#/tmp/wt-[A-Z0-9]+#$W#g; s#cp ([A-T]\.demo[_a-z.]*go)#cp $SRC/\1#")
+CMD=$(echo "$CMD" | sed -E "s#<repo>#$W#g; s#<worktree>#$W#g; s#/tmp/wt[0-9]*-[A-Z0-9]+#$W#g; s#cp ([A-T]\.demo[_a-z.]*go)#cp $SRC/\1#")
 res() { echo "$1"; }
 cd $W
 clean=$(bash -c "$CMD" 2>&1 | tail -3 | grep -c "^ok")
 DEMOFILE=$(git status --porcelain | awk '{print $2}' | head -1)
 cp "$W/$DEMOFILE" /tmp/demo-$P-$L.go; rm -f "$W/$DEMOFILE"
 if ! git apply "$SRC/$L.patch.diff" 2>/dev/null; then git apply --3way "$SRC/$L.patch.diff" || { echo "$P-$L: PATCH DOES NOT APPLY to HEAD"; git -C /repo worktree remove --force $W; exit 3; }; fi
-git diff > /tmp/patch-$P-$L.diff   # the change as it applies to today's HEAD (a 3-way merge may have shifted context)
+git add -N . && git diff > /tmp/patch-$P-$L.diff; git reset -q   # the change as it applies to today's HEAD (a 3-way merge may have shifted context)
 build=$(go build ./... 2>&1 | wc -l)
 suite=$(go test -vet=off -count=1 $(go list ./... | grep -v mod_test) 2>&1 | grep -c "^FAIL\|^--- FAIL\|panic:")
 with=$(bash -c "$CMD" 2>&1 | tail -5 | grep -c "^FAIL\|^--- FAIL")
